@@ -341,10 +341,12 @@ def law_builtin(ch):
         scalar = ch.boolean("scalar-args")
         if scalar:
             Ub, mub = Ua, mua
+        # (the documented default coordinations=(1, 1) is left out)
+        ckw = {} if (za, zb) == (1, 1) else {"coordinations": (za, zb)}
         Gx = must(sr.fermi_hubbard_local_array, symm, t=t,
                   U=Ua if scalar else (Ua, Ub),
-                  mu=mua if scalar else (mua, mub), coordinations=(za, zb),
-                  what="fermi_hubbard_local_array")
+                  mu=mua if scalar else (mua, mub),
+                  what="fermi_hubbard_local_array", **ckw)
         modes = ["au", "ad", "bu", "bd"]
         F = Fock([modes[i] for i in ch.perm(4, "jw-order")])
         n = F.number
@@ -364,9 +366,10 @@ def law_builtin(ch):
         scalar = ch.boolean("scalar-args")
         if scalar:
             mub = mua
+        ckw = {} if (za, zb) == (1, 1) else {"coordinations": (za, zb)}
         Gx = must(sr.fermi_hubbard_spinless_local_array, symm, t=t, V=V,
-                  mu=mua if scalar else (mua, mub), coordinations=(za, zb),
-                  what="fermi_hubbard_spinless_local_array")
+                  mu=mua if scalar else (mua, mub),
+                  what="fermi_hubbard_spinless_local_array", **ckw)
         F = Fock(["a", "b"] if ch.boolean("jw") else ["b", "a"])
         n = F.number
         cd = lambda x, y: F.op(x, True) @ F.op(y, False)
